@@ -48,7 +48,10 @@ def _solve_text(args):
         else:
             model = out[:500]
         if res == 'unknown' and second:
-            for backend2, cmd in (('z3-4.8.12', ['/usr/bin/z3', '-T:%d' % tsec, '-smt2']),
+            # portfolio: quantifier instantiation order depends on the random seed; an `unsat` from any run is a proof
+            for backend2, cmd in (('z3-5.1(seed 7)', [Z3NEW, '-T:%d' % tsec, '-smt2', 'smt.random_seed=7', 'sat.random_seed=7']),
+                                  ('z3-5.1(seed 13)', [Z3NEW, '-T:%d' % tsec, '-smt2', 'smt.random_seed=13', 'sat.random_seed=13']),
+                                  ('z3-4.8.12', ['/usr/bin/z3', '-T:%d' % tsec, '-smt2']),
                                   ('cvc5-1.0.3', ['/usr/bin/cvc5', '--tlimit=%d' % timeout_ms, '--lang=smt2'])):
                 out2 = _run(cmd, fn, tsec)
                 f2 = out2.strip().splitlines()[0] if out2.strip() else ''
